@@ -102,3 +102,87 @@ Proof.
         by (repeat rewrite <- app_assoc; reflexivity).
       apply hdr_not_prefix_line. exact Hh.
 Qed.
+
+(** * the whole directory: if the import keeps the file order, the statement sequence is kept *)
+
+(** per source file: the source reader succeeds, every statement is [import_stmt_ok] and ends with
+    the default delimiter (true of every reader here: they scan with ';') *)
+Definition import_source_ok (F : format) (content : bytes) : bool :=
+  match read F opts_generic content with
+  | RStmts ss => forallb import_stmt_ok ss && forallb (fun s => has_suffix (Text s) delimiter) ss
+  | _ => false
+  end.
+
+Lemma find_name_cons (n : bytes) c (l : list (bytes * bytes)) m :
+  bytes_eqb n m = false -> find (fun f => bytes_eqb (fst f) m) ((n, c) :: l) = find (fun f => bytes_eqb (fst f) m) l.
+Proof. intros H. simpl. rewrite H. reflexivity. Qed.
+
+Lemma dir_stmts_skip n c l : forall names, ~ In n names ->
+  dir_stmts ((n, c) :: l) names = dir_stmts l names.
+Proof.
+  induction names as [|m ms IH]; intros H; [reflexivity|].
+  simpl. assert (bytes_eqb n m = false) as E.
+  { apply bytes_eqb_neq. intros ->. apply H. left. reflexivity. }
+  rewrite E. rewrite IH by (intros I; apply H; right; exact I). reflexivity.
+Qed.
+
+Lemma import_all_spec F now files : forall olds news out,
+  import_all F now files olds news = Some out -> length olds = length news ->
+  (forall o, In o olds -> exists c, find (fun f => bytes_eqb (fst f) o) files = Some (o, c) /\ import_source_ok F c = true) ->
+  NoDup (map fst out) ->
+  dir_stmts out (map fst out) = source_stmts F files olds.
+Proof.
+  induction olds as [|o ot IH]; intros news out H Hlen Hok Hnd.
+  - destruct news; [|discriminate]. simpl in H. injection H as <-. reflexivity.
+  - destruct news as [|n nt]; [discriminate|]. simpl in Hlen. injection Hlen as Hlen.
+    destruct (Hok o (or_introl eq_refl)) as (c & Hf & Hc).
+    cbn [import_all] in H. rewrite Hf in H.
+    destruct (import_file F now o n c) as [[name cont]|] eqn:Ei; [|discriminate].
+    destruct (import_all F now files ot nt) as [r|] eqn:Er; [|discriminate].
+    injection H as <-. cbn [map fst] in *. inversion Hnd as [|x l Hni Hnd']; subst.
+    cbn [source_stmts]. rewrite Hf.
+    unfold import_source_ok in Hc. destruct (read F opts_generic c) as [ss| | |] eqn:Erd; try discriminate.
+    apply andb_true_iff in Hc as [Hc1 Hc2].
+    (* the imported file reads back as the source statements *)
+    assert (Hrt : texts (of_scan (Stmts cont)) = Some (map Text ss)).
+    { unfold import_file in Ei. rewrite Erd in Ei. injection Ei as _ <-.
+      pose proof (import_file_roundtrip (file_version F n) (file_desc F n) ss Hc1) as H.
+      unfold texts_of in H. rewrite H. f_equal. apply map_ext_in. intros s Hin.
+      pose proof (proj1 (forallb_forall _ _) Hc2 s Hin) as Hs. cbn beta in Hs.
+      unfold trim_suffix. rewrite Hs. symmetry. exact (LexProofs.has_suffix_app _ _ Hs). }
+    cbn [dir_stmts find fst]. rewrite bytes_eqb_refl. rewrite Hrt.
+    rewrite dir_stmts_skip by exact Hni.
+    rewrite (IH nt r Er Hlen); [|intros o' Ho'; apply Hok; right; exact Ho'|exact Hnd'].
+    cbn [texts]. reflexivity.
+Qed.
+
+(** the atlas directory lists files by name: the target names must already be in that order *)
+Fixpoint names_eqb (a b : list bytes) : bool :=
+  match a, b with
+  | [], [] => true
+  | x :: a', y :: b' => bytes_eqb x y && names_eqb a' b'
+  | _, _ => false
+  end.
+Lemma names_eqb_eq a : forall b, names_eqb a b = true -> a = b.
+Proof.
+  induction a as [|x a IH]; intros [|y b] H; simpl in H; try discriminate; [reflexivity|].
+  apply andb_true_iff in H as [H1 H2]. apply bytes_eqb_eq in H1. rewrite H1, (IH _ H2). reflexivity.
+Qed.
+Definition import_order_ok (out : list (bytes * bytes)) : bool :=
+  names_eqb (local_files (map fst out)) (map fst out).
+
+Theorem import_dir_roundtrip F now files out :
+  import_dir F now files = Some out ->
+  import_order_ok out = true -> NoDup (map fst out) ->
+  (forall o, In o (dir_files F (map fst files)) ->
+     exists c, find (fun f => bytes_eqb (fst f) o) files = Some (o, c) /\ import_source_ok F c = true) ->
+  imported_stmts out = source_stmts F files (dir_files F (map fst files)).
+Proof.
+  intros Hi Ho Hnd Hok. unfold imported_stmts. rewrite (names_eqb_eq _ _ Ho).
+  unfold import_dir in Hi. eapply import_all_spec; eauto.
+  unfold import_names. destruct F; try reflexivity.
+  (* Flyway: set_repeatable keeps the length *)
+  generalize (dir_files FFlyway (map fst files)). intros l. generalize [48%N], false.
+  induction l as [|x l IH]; intros prev seen; [reflexivity|]. cbn [set_repeatable length].
+  destruct (seen || _); cbn [length]; f_equal; apply IH.
+Qed.
